@@ -53,7 +53,16 @@ MANIFEST = dict(
          'where find_references creates the map of non-matching references (reset_per_module_loses_references: the '
          'kernel-checked counter-model for the other placement), flow_analysis_off_then_restored. Direct oracle on '
          'generated multi-module projects on disk (every import form, aliases, re-exports, try/except and if/else ties, '
-         'file and package renames): exactness, behaviour, partition, rename-back.',
+         'file and package renames): exactness, behaviour, partition, rename-back. Keyword arguments (Model/KwBind): '
+         'keyword_goto_complete (every parameter a call keyword binds in Python - positional-or-keyword or keyword-only - is '
+         'among the answers of the named-param goto, for every signature and keyword; stated over the kind filter the '
+         'translator reads from names.py:AbstractTreeName.goto, so a filter that forgets a keyword-capable kind breaks the '
+         'build), keyword_goto_sound_partial (converse, for filters that accept keyword-capable kinds only) with the '
+         'kernel-checked witness that the unchanged filter is not sound (`**x` tied to `x=`) and the counter-model for a '
+         'filter without KEYWORD_ONLY; tie: Script.goto on the keyword of a call = the model, for all well-formed signatures '
+         'of <= 3 parameters x every keyword x function/method/__init__ (stream kwgoto). Direct oracle on generated programs '
+         'whose parameters of every kind are passed by keyword (stream kwparam) and on multi-module projects with keyword '
+         'calls across modules.',
     note='Modelled not verified: the Scopes fragment (straight-line bodies, no imports) for one module; for several '
          'modules only the scan loop is modelled (what goto answers for a token across imports is an input of the model); '
          'import resolution, file/package renames and the project-wide file search are covered by the direct oracle on '
